@@ -13,7 +13,7 @@ CFG = dict(
     helper_theorems=["fan_quad"],
     streams=[dict(name="c08", n=dict(quick=400, thorough=5000))],
     trusted=T_PLY + ["the independent Go reference encoder in c08.go produces the bytes fed to ply.ReadMesh; c08.encode checks on every case that the Lean refEncode yields the same bytes"],
-    residue=["ply_reads_spec_full (readMesh (refEncode f) = meaning f for every guarded SpecFile) is a def … : Prop, NOT a theorem, and no partial end-to-end version (header text → mesh) is proved; on every generated SpecFile the oracle c08.holds.meaning checks that ply.ReadMesh's result equals `meaning f` and c08.read that the model reader agrees with ply.ReadMesh",
+    residue=["ply_reads_spec_full (readMesh (refEncode f) = meaning f for every guarded SpecFile) is a def … : Prop, NOT a theorem; composed so far (parsed-header interface, binary): ply_spec_readback_vertex (vertex arrays → face stage → assemble) and ply_reads_spec_pointcloud (files without face element read without error to the explicit mesh); missing: face loop over the reference face encoding, claim-stage characterisation, equality with `meaning`, header keyword parsing, ASCII; on every generated SpecFile the oracle c08.holds.meaning checks that ply.ReadMesh's result equals `meaning f` and c08.read that the model reader agrees with ply.ReadMesh",
              "proved for all inputs, over the REFERENCE encoding: field decoding at the header-computed offset for any property order/type mix (ply_spec_field_any_layout), value = Datum.val for representable data, the whole binary vertex block under the vertex loop for any list of located readers (ply_spec_vertex_block), an unrecognised property gets its own located scalar reader through addUnclaimed; scalar-reader location arithmetic (binary prefix sums, ASCII column); LF/CRLF line reading; quad/triangle emission with per-corner UVs",
              "the vector claim scan buildVec IS proved to yield a Located reader for any permutation under the uniform-type guard (ply_group_reader_located; the S2 sensitivity trial lives there) and feeds ply_spec_vertex_block; NOT proved (modelled and corresponded only): the IgnorableW fallback / buildAll composition; header keyword parsing from bytes (aliases, comments, element/property lines); the face loop over list properties; UpdateMesh/unweld assembly and its equality with `meaning`; the ASCII encoding",
              "all theorems hold for an ARBITRARY `Coding α` (the bundle has no laws): they speak about decode∘encode of that coding (datumRead); `Datum.Exact` / `ply_spec_field_value` is where representability enters",
